@@ -110,7 +110,7 @@ def r1_fresh(R) -> None:
         if verdict is None:
             raise Unknown(f'{VR}: `{res} = {text(v)[:60]}` - whether this is a deep copy of everything reindex() does not rebuild was not decided ({why})')
         R.check(verdict, VR, 'fresh:' + text(v)[:50], 'the result starts as a deep copy of the object (variables aside, which are rebuilt)',
-                f'`{res}` is `{text(v)[:60]}`, not self.copy(): {why}', where=f.where(d))
+                f'`{res}` is `{text(v)[:60]}`, not self.copy(): {why}', where=f.where(d), decided=True)
     rets = f.returns()
     R.check(len(rets) == 1 and text(rets[0].ast.value) == res, VR, 'returns-new', 'the new object is returned', 'reindex does not return `reindexed`', where=f.fi.where)
     for q in (VR, MR, PR):
